@@ -15,12 +15,12 @@ ASSUMPTIONS = ["validation stays enabled (set_validation_enabled(False) is the d
 
 DEFECTS = ["end_not_after_start", "step_not_dividing", "infectious_unknown", "initdist_unknown", "strat_comp_unknown", "flow_comp_unknown",
            "output_comp_unknown", "adjusted_flow_unknown", "adj_filter_unknown_strat", "adj_filter_unknown_stratum", "agg_source_unknown",
-           "cum_source_unknown", "flow_output_unknown", "flow_adj_omits", "inf_adj_omits", "split_omits", "split_negative", "split_sum",
+           "cum_source_unknown", "func_source_unknown", "flow_output_unknown", "flow_adj_omits", "inf_adj_omits", "split_omits", "split_negative", "split_sum",
            "second_birth", "second_age", "second_strain", "dup_strat", "dup_udeath", "dup_output", "mixing_partial", "age_partial",
-           "mixing_strain", "unequal_src_dst", "expected_count", "bad_rate", "finalized"]
+           "mixing_strain", "unequal_src_dst", "expected_count", "bad_rate", "finalized", "source_is_rejected_request"]
 
 def payloads(tier, seed):
-    n = 93 if tier == "quick" else 1550
+    n = 99 if tier == "quick" else 1650
     return [{"seed": seed, "index": i, "defect": DEFECTS[i % len(DEFECTS)]} for i in range(n)]
 
 FINAL_OPS = [
@@ -92,11 +92,33 @@ def inject(r, prog, defect):
         else:
             if not prev: return None
             flt = [[prev[0]["name"], "nostratum"]]
-        ops[i].setdefault("flow_adj", []).append({"flow": f["name"], "adjs": [[s, ["mul", {"c": "2"}]] for s in st], "src": flt}); return ops, i
+        decl = {"flow": f["name"], "adjs": [[s, ["mul", {"c": "2"}]] for s in st]}
+        # the bad filter goes on the source, on the destination, or on one of them while the other end carries a VALID filter --
+        # naming the same earlier stratification when there is one (the two filters are validated independently)
+        two_ended = f["kind"] != "death"
+        where = r.choice(["src", "dst", "src+valid_dst", "dst+valid_src"]) if two_ended else "src"
+        valid = None
+        if prev:
+            pst = sorted(prev[0]["strata"], key=int) if prev[0]["kind"] == "age" else prev[0]["strata"]
+            valid = [[prev[0]["name"], str(r.choice(pst))]]
+        if where == "src" or valid is None and where.startswith("src"):
+            decl["src"] = flt
+        elif where == "dst" or valid is None:
+            decl["dst"] = flt
+        elif where == "src+valid_dst":
+            decl["src"] = flt; decl["dst"] = valid
+        else:
+            decl["dst"] = flt; decl["src"] = valid
+        ops[i].setdefault("flow_adj", []).append(decl); return ops, i
     if defect == "agg_source_unknown":
         ops.append({"op": "request", "name": "bad_agg", "kind": "agg", "sources": ["nope"], "save": True}); return ops, len(ops) - 1
     if defect == "cum_source_unknown":
         ops.append({"op": "request", "name": "bad_cum", "kind": "cum", "source": "nope", "save": True}); return ops, len(ops) - 1
+    if defect == "func_source_unknown":
+        good = [op["name"] for op in ops if op["op"] == "request"]
+        srcs = r.choice([["nope"], [good[0], "nope"]] if good else [["nope"]])
+        expr = {"+": [{"x": 0}, {"c": "1"}]} if len(srcs) == 1 else {"*": [{"x": 0}, {"x": 1}]}
+        ops.append({"op": "request", "name": "bad_fn", "kind": "func", "sources": srcs, "expr": expr, "save": True}); return ops, len(ops) - 1
     if defect == "flow_output_unknown":
         ops.append({"op": "request", "name": "bad_fo", "kind": "flow", "flow": "no_such_flow", "raw": True, "save": True}); return ops, len(ops) - 1
     if defect in ("flow_adj_omits", "inf_adj_omits", "split_omits", "split_negative", "split_sum"):
@@ -263,6 +285,40 @@ def task(W, payload):
             if ln["ok"]:
                 out["diffs"].append({"stage": "S9", "what": "model accepts a call after finalisation", "op": op, "prescribed": False,
                                      "task": {"module": "c17", "fn": "task", "payload": payload}})
+        return out
+    if defect == "source_is_rejected_request":
+        # a request that was REJECTED does not exist: using its name as a source (or naming itself) must be rejected too
+        S = fresh_session(W)
+        if not S.build(prog["build"]):
+            bump(out, "build_rejected"); return out
+        names = prog["build"][0]["comps"]
+        seq = [({"op": "request", "name": "ok_src", "kind": "comp", "comps": [names[0]], "save": True}, True)]
+        first = r.choice(["agg", "func", "selfref"])
+        if first == "agg":
+            seq.append(({"op": "request", "name": "rej", "kind": "agg", "sources": ["ok_src", "nope"], "save": True}, False))
+        elif first == "func":
+            seq.append(({"op": "request", "name": "rej", "kind": "func", "sources": ["ok_src", "nope"], "expr": {"+": [{"x": 0}, {"x": 1}]}, "save": True}, False))
+        else:
+            seq.append(({"op": "request", "name": "rej", "kind": "agg", "sources": ["ok_src", "rej"], "save": True}, False))
+        k = r.choice(["cum", "agg", "func"])
+        after = {"op": "request", "name": "after", "kind": k, "save": True}
+        if k == "cum": after["source"] = "rej"
+        elif k == "agg": after["sources"] = ["ok_src", "rej"]
+        else: after["sources"] = ["rej"]; after["expr"] = {"+": [{"x": 0}, {"c": "1"}]}
+        seq.append((after, False))
+        bump(out, f"rejected_then:{first}->{k}")
+        for op, want_ok in seq:
+            py = S.I.apply(op); ln = S.L.send(op)
+            out["evals"] += 1
+            out["cases"].append(f"{defect}:{h}:{op['name']}:{first}:{k}")
+            if py["ok"] != want_ok and not want_ok:
+                fail(out, f"ill-formed definition accepted: derived output '{op['name']}' whose source does not exist (the source's own request was rejected)", "c17", payload,
+                     defect=defect, call=op, sequence=[o for o, _ in seq], prefix=prog["build"])
+            if ln["ok"] != want_ok:
+                out["diffs"].append({"stage": "S1", "what": f"model {'rejects' if want_ok else 'accepts'} {op['name']} in {defect}", "op": op, "prescribed": False,
+                                     "task": {"module": "c17", "fn": "task", "payload": payload}})
+            if py["ok"] != want_ok and want_ok:
+                bump(out, "valid_request_rejected"); break
         return out
     inj = None
     for _ in range(6):
